@@ -32,6 +32,10 @@ VARIANTS = {
     # configuration as the finder, but the other compiler
     "arb_ndebug": ("g++", ["-O2", "-DNDEBUG", "-fno-tree-vectorize"] + STD_SAN + COMMON),
     "arb_debug": ("clang++", ["-O1"] + STD_FAST + COMMON),
+    # third configuration: the oldest language standard the library documents (C++11: IMATH_CPLUSPLUS_VERSION < 14
+    # branches, non-constexpr IMATH_CONSTEXPR14 functions), asserts on; arbitrated by clang++ in the same mode
+    "std11": ("g++", ["-O1", "-std=gnu++11"] + COMMON),
+    "arb_std11": ("clang++", ["-O1", "-std=gnu++11"] + COMMON),
     "fuzz": ("clang++", ["-O1", "-fsanitize=fuzzer,address,undefined", "-fno-sanitize-recover=undefined", "-DVP_FUZZ=1", "-std=gnu++20"] + COMMON),
 }
 LIBFLAGS_OVERRIDE = {"fuzz": ["-O1", "-fsanitize=fuzzer-no-link,address,undefined", "-fno-sanitize-recover=undefined", "-std=gnu++20"] + COMMON}
@@ -44,7 +48,7 @@ PROPS = {
                 extras=[dict(src="c03_halffunc_ls.cpp", flags=["-std=c++17", "-O1", "-DIMATH_HAVE_LARGE_STACK=1"], compilers=["g++", "clang++"], libs=["half.cpp"],
                              runs={"quick": "24", "thorough": "600"},
                              what="large-stack configuration (IMATH_ENABLE_LARGE_STACK): halfFunction<float|half|double> with the member-array table, placement-constructed in pre-filled storage; seeded domains x all 2^16 entries")]),
-    "C04": dict(tu=["c04_p%d.cpp" % i for i in range(1, 11)], san_scale=0.1, fuzz_s=0,
+    "C04": dict(tu=["c04_p%d.cpp" % i for i in range(1, 11)], san_scale=0.1, fuzz_s=0, variants=["fast", "san"],  # the harness needs C++14
                 extras=[dict(src="c04_constexpr23.cpp", flags=["-std=c++2b", "-O1"], compilers=["g++", "clang++"],
                              what="C++23 configuration: constant-evaluated (if consteval) accessors and operators vs named members and run-time evaluation")]),
     "C05": dict(tu="c05_products.cpp", san_scale=0.1, fuzz_s=60),
@@ -347,16 +351,18 @@ def run_cpp(prop, tier, seed, only=None):
         if not os.path.exists(os.path.join(HERE, t)):
             print("ERROR harness %s missing" % t)
             return 2
-    variants = spec.get("variants", ["fast", "san"])
+    variants = spec.get("variants", ["fast", "san", "std11"])
     extra_env = {}
     try:
         config_dir()
-        with cf.ThreadPoolExecutor(max_workers=3) as ex:
+        with cf.ThreadPoolExecutor(max_workers=4) as ex:
             jf = ex.submit(build_binary, prop, "fast")
             js = ex.submit(build_binary, prop, "san") if "san" in variants else None
+            j11 = ex.submit(build_binary, prop, "std11") if "std11" in variants else None
             jp = ex.submit(PREBUILD[spec["prebuild"]]) if spec.get("prebuild") else None
             fast = jf.result()
             san = js.result() if js else None
+            std11 = j11.result() if j11 else None
             if jp:
                 extra_env = jp.result()
     except BuildError as e:
@@ -378,7 +384,7 @@ def run_cpp(prop, tier, seed, only=None):
     saved = sorted(glob.glob(os.path.join(saved_dir, "*.replay")) + glob.glob(os.path.join(VERIF, "corpus", prop, "*.replay")))
     n_replayed = 0
     for rp in saved:
-        for exe, is_san in ((fast, False), (san, True)):
+        for exe, is_san in ((fast, False), (san, True), (std11, False)):
             if exe is None:
                 continue
             rc, out = replay_on(exe, rp, is_san)
@@ -406,12 +412,13 @@ def run_cpp(prop, tier, seed, only=None):
     procs = {}
     tmpd = os.path.join(BUILD, "run", "%s-%d" % (prop, os.getpid()))
     os.makedirs(tmpd, exist_ok=True)
-    for name, exe in (("fast", fast), ("san", san)):
+    exes = {"fast": fast, "san": san, "std11": std11}
+    for name, exe in (("fast", fast), ("san", san), ("std11", std11)):
         if exe is None:
             continue
         out = os.path.join(tmpd, name + ".json")
-        cmd = [exe, "--tier", tier, "--seed", str(seed if name == "fast" else seed + 7919), "--threads", str(NCPU if name == "fast" else max(4, NCPU // 2)), "--out", out, "--replay-dir", rdir]
-        if name == "san":
+        cmd = [exe, "--tier", tier, "--seed", str(seed + {"fast": 0, "san": 7919, "std11": 104729}[name]), "--threads", str(NCPU if name == "fast" else max(4, NCPU // 2)), "--out", out, "--replay-dir", rdir]
+        if name != "fast":
             cmd += ["--san", "--scale", str(spec.get("san_scale", 0.1))]
         for k in knkeys:
             cmd += ["--known", k]
@@ -442,30 +449,34 @@ def run_cpp(prop, tier, seed, only=None):
     subs = {}
     excluded_known = 0
     for name, res in results.items():
-        other = san if name == "fast" else fast
+        others = [(n2, e2) for n2, e2 in exes.items() if n2 != name and e2 is not None]
         for sc in res["subchecks"]:
             for f in sc["failures"]:
                 if f["known"]:
                     known_hits[f["key"]] = f["msg"]
                     excluded_known += f["count"]
                     continue
-                if other is None:
+                if not others:
                     rc, out = 1, ""
                 else:
-                    rc, out = replay_on(other, f["replay"], san=(name == "fast"))
+                    rc, out = 0, ""
+                    for n2, e2 in others:
+                        rc, out = replay_on(e2, f["replay"], san=(n2 == "san"))
+                        if rc == 1 or rc == 99 or rc < 0:
+                            break
                 if rc == 1 or rc == 99 or rc < 0:
                     violations.append((f["replay"], "%s: %s | case: %s" % (f["key"], f["msg"], f["case"])))
                 else:
                     # the two binaries differ in compiler AND in NDEBUG and language standard: arbitrate with the other compiler in the
                     # finder's preprocessor configuration before calling it a toolchain problem
-                    arb = "arb_debug" if name == "fast" else "arb_ndebug"
+                    arb = {"fast": "arb_debug", "san": "arb_ndebug", "std11": "arb_std11"}[name]
                     try:
                         arb_exe = build_binary(prop, arb)
                         rc2, out2 = replay_on(arb_exe, f["replay"])
                     except BuildError as e:
                         rc2, out2 = 2, str(e)[-300:]
                     if rc2 == 1:
-                        violations.append((f["replay"], "%s: %s | case: %s [only in the %s configuration; confirmed by both compilers]" % (f["key"], f["msg"], f["case"], "asserts-on -std=gnu++17" if name == "fast" else "-DNDEBUG -std=gnu++14")))
+                        violations.append((f["replay"], "%s: %s | case: %s [only in the %s configuration; confirmed by both compilers]" % (f["key"], f["msg"], f["case"], {"fast": "asserts-on -std=gnu++17", "san": "-DNDEBUG -std=gnu++14", "std11": "asserts-on -std=gnu++11"}[name])))
                     else:
                         errors.append("toolchain disagreement on %s (found by %s binary, other binary rc=%d, arbitration rc=%d): %s" % (f["replay"], name, rc, rc2, f["msg"]))
     # --- 3b. extra configuration programs (stand-alone, print FAIL lines)
@@ -521,7 +532,7 @@ def run_cpp(prop, tier, seed, only=None):
     exhaustive_all = True
     rules = []
     discards = 0
-    for name in ("fast", "san"):
+    for name in ("fast", "san", "std11"):
         res = results.get(name)
         if not res:
             continue
